@@ -35,7 +35,7 @@ EXH_LETTERS = REQ_LETTERS + ANS_LETTERS + APP_LETTERS + LATE
 REQ_LETTERS = REQ_LETTERS + BADVAL_LETTERS
 LETTERS = EXH_LETTERS + BADVAL_LETTERS
 STARTS = ["in-ready", "in-connected", "out-await-cea", "out-ready", "in-waiting-dwa", "in-disconnecting"]
-BEHAVIOURS = ["answer", "defer", "raise", "threading-answer", "threading-raise", "threading-none"]
+BEHAVIOURS = ["answer", "defer", "raise", "threading-answer", "threading-raise", "threading-none", "answer_norc"]
 
 
 def R_enc(code, app, flags, hbh, e2e, body):
